@@ -53,10 +53,11 @@ def write_zoo(ctx, n, label="zoo", salt=0):
     return files
 
 
-def compare_modes(ctx, label, files, modes, base_mode="", steps=400000, what="collection schedule"):
+def compare_modes(ctx, label, files, modes, base_mode="", steps=400000, what="collection schedule", nan_boxing=False):
     """Run every file under base_mode and each of `modes`; outcomes must be identical.
-    Returns False after reporting the first difference."""
-    base = common.run_batch(["%s --steps %d %s" % (base_mode, steps, f) for f in files])
+    Returns False after reporting the first difference.  `nan_boxing`: use the harness built with
+    the NaN-boxed value representation (both the base run and the other modes)."""
+    base = common.run_batch(["%s --steps %d %s" % (base_mode, steps, f) for f in files], nan_boxing=nan_boxing)
     stats = {"programs": len(files), "modes": len(modes) + 1, "runs": len(files), "scheduled_collections": 0,
              "base_ok": sum(1 for r in base if r["status"].startswith("Ok")),
              "base_runtime_error": sum(1 for r in base if r["status"].startswith("RuntimeError")),
@@ -64,7 +65,7 @@ def compare_modes(ctx, label, files, modes, base_mode="", steps=400000, what="co
              "base_crash": sum(1 for r in base if r["status"].startswith(("PANIC", "CRASH")))}
     for mode in modes:
         mode = mode.format(seed=ctx.seed)
-        runs = common.run_batch(["%s --steps %d %s" % (mode, steps, f) for f in files])
+        runs = common.run_batch(["%s --steps %d %s" % (mode, steps, f) for f in files], nan_boxing=nan_boxing)
         stats["runs"] += len(files)
         for f, b, r in zip(files, base, runs):
             stats["scheduled_collections"] += int(r.get("scheduled_collections", 0) or 0)
@@ -78,7 +79,8 @@ def compare_modes(ctx, label, files, modes, base_mode="", steps=400000, what="co
                                       "file": f, "program": open(f).read()[:20000], "base_mode": base_mode or "default", "mode": mode,
                                       "base": {"status": b["status"], "stdout": b["stdout"][-1500:], "stderr": b["stderr"][-800:]},
                                       "other": {"status": r["status"], "stdout": r["stdout"][-1500:], "stderr": r["stderr"][-800:]},
-                                      "run": "harness/target/debug/vharness run %s --steps %d <program>" % (mode, steps)})
+                                      "nan_boxing": nan_boxing,
+                                      "run": "harness/%s/debug/vharness run %s --steps %d <program>" % ("target-nb" if nan_boxing else "target", mode, steps)})
                 return False
         for f, r in zip(files, runs):
             ctx.count_case((f, mode), nontrivial=int(r.get("scheduled_collections", 0) or 0) > 0)
